@@ -22,16 +22,17 @@ CHARS = {10: (0x25, 0x01, "?", 0x10 | 0x20 | 0x80), 11: (0x08, 0x04, "B", 0x10 |
 PAIRINGS_IID = 4
 
 
-def char_items(iid):
-    typ, fmt, code, props = CHARS[iid]
+def char_items(iid, chars=None):
+    typ, fmt, code, props = (chars or CHARS)[iid]
     return [(0x04, typ.to_bytes(16, "little")), (0x05, struct.pack("<H", iid)), (0x0A, struct.pack("<H", props)), (0x0C, struct.pack("<BbHBH", fmt, 0, 0x2700, 1, 0))]
 
 
-def database():
+def database(chars=None):
+    chars = chars or CHARS
     pairing_chars = [[(0x13, [(0x04, (0x50).to_bytes(16, "little")), (0x05, struct.pack("<H", PAIRINGS_IID)), (0x0A, struct.pack("<H", 0x30)),
                               (0x0C, struct.pack("<BbHBH", 0x1B, 0, 0x2700, 1, 0))])]]
     svc_pair = [(0x15, [(0x06, (0x55).to_bytes(16, "little")), (0x07, struct.pack("<H", 1)), (0x14, ("list", pairing_chars))])]
-    svc_test = [(0x15, [(0x06, (0x43).to_bytes(16, "little")), (0x07, struct.pack("<H", 8)), (0x14, ("list", [[(0x13, char_items(i))] for i in sorted(CHARS)])),
+    svc_test = [(0x15, [(0x06, (0x43).to_bytes(16, "little")), (0x07, struct.pack("<H", 8)), (0x14, ("list", [[(0x13, char_items(i, chars))] for i in sorted(chars)])),
                         (0x0F, struct.pack("<H", 1))])]
     return enc_struct([(0x18, ("list", [[(0x19, [(0x1A, struct.pack("<H", 1)), (0x16, ("list", [svc_pair, svc_test]))])]]))])
 
@@ -42,6 +43,7 @@ class RefCoapAccessory:
         self.sess = None
         self.pv = None
         self.eph = 0
+        self.chars = dict(CHARS)           # instance database (a world may add characteristics before the first contact)
         self.values = {iid: (struct.pack(c, 0) if c else b"") for iid, (_, _, c, _) in CHARS.items()}
         self.write_status = {}
         self.read_status = {}
@@ -115,7 +117,7 @@ class RefCoapAccessory:
 
     def handle_pdu(self, op, iid, body):
         if op == 0x09:
-            return 0, database()
+            return 0, database(self.chars)
         if iid == PAIRINGS_IID:
             if op == 0x02:
                 self.pairings_req = dict(tlv_dec(dict(tlv_dec(body)).get(1, b"")))
@@ -132,10 +134,10 @@ class RefCoapAccessory:
                         items.append((255, b""))
                     items += [(T_ID, cid), (T_PK, pk), (T_PERM, b"\x01")]
                 return 0, tlv_enc([(1, tlv_enc(items))])
-        if iid not in CHARS:
+        if iid not in self.chars:
             return 4, b""
         if op == 0x03:
-            st = self.read_status.get(iid, 0) or (0 if CHARS[iid][3] & 0x10 else 6)      # no read permission: Invalid Request
+            st = self.read_status.get(iid, 0) or (0 if self.chars[iid][3] & 0x10 else 6)      # no read permission: Invalid Request
             return (st, b"") if st else (0, tlv_enc([(1, self.values[iid])]))
         if op == 0x02:
             st = self.write_status.get(iid, 0)
